@@ -1469,7 +1469,7 @@ def search(ctx: Ctx, reason: str):
     """implementation-only search after an obligation broke; sized so that a red quick run stays well under 3 minutes"""
     rng = ctx.rng
     run_batch(ctx, [random_sequence(rng, rng.choice([20, 60, 200]), rng.choice([3, 4, 5, 6]))
-                    for _ in range(ctx.scale(1500, 8000))], "search", False)
+                    for _ in range(ctx.scale(400, 8000))], "search", False)
     if ctx.thorough():
         exhaustive(ctx, 4, False)
 
